@@ -275,6 +275,24 @@ def _xmcd_payload(dev: str, rev: str, sub_i: int, form: str):
 
         return XMCD.load_from_config(yaml.safe_load(tpl())).export()
 
+    def tail_bytes():
+        # the default block with its last configuration word (and a word in the middle) set: a block whose tail matters
+        from spsdk.image.xmcd.xmcd import XMCD
+
+        b = bytearray(obj_bytes())
+        if len(b) >= 12:
+            b[-4:] = b"\xa5\x5a\xc3\x3c"
+            mid = 4 * ((len(b) // 2) // 4)
+            if mid >= 8:
+                b[mid : mid + 4] = b"\x11\x22\x33\x44"
+        back = XMCD.parse(bytes(b), family=dev, revision=rev)
+        if bytes(back.export()) != bytes(b):  # the area itself does not keep these bytes: not a payload to judge the merge with
+            raise SkipCase()
+        return bytes(b)
+
+    if form == "tail":
+        path, data = _build(lambda: _cached_file(("xmcd_tail", dev, rev, sub), tail_bytes), "xmcd")
+        return path, data, ["xmcd:" + sub, "form:tail"]
     if form == "yaml":
         path, _ = _build(lambda: _cached_file(("xmcd_yaml", dev, rev, sub), tpl, ".yaml"), "xmcd_yaml")
         data = _build(lambda: _cached_file(("xmcd_yaml_bytes", dev, rev, sub), tpl_bytes), "xmcd_yaml")[1]
@@ -748,7 +766,7 @@ def _nominal_segs(tab: L.Table, salt: bytes, only_app: bool = False) -> dict:
         elif name.startswith("fcb"):
             segs[name] = {"form": ("bin", "bin", "swapped", "random0")[(r >> 11) % 4]}
         elif name == "xmcd":
-            segs[name] = {"form": "bin", "sub": r % 8}
+            segs[name] = {"form": ("bin", "tail")[(r >> 13) % 2], "sub": r % 8}
     return segs
 
 
@@ -878,7 +896,7 @@ def _layout_strategy():
             elif name.startswith("fcb"):
                 segs[name] = {"form": draw(st.sampled_from(["bin", "bin", "yaml", "swapped", "random0", "random1", "random2", "random3"]))}
             elif name == "xmcd":
-                segs[name] = {"form": draw(st.sampled_from(["bin", "bin", "yaml"])), "sub": draw(st.integers(0, 7))}
+                segs[name] = {"form": draw(st.sampled_from(["bin", "tail", "tail", "yaml"])), "sub": draw(st.integers(0, 7))}
             else:
                 raise HarnessError("segment kind %r is unknown to the check" % name)
         case["segs"] = segs
